@@ -63,7 +63,7 @@ func init() {
 		MinCounters: map[string]int64{"queries_overlapping_a_writer_step": 50, "pause_sites_reached": 10, "histories_checked": 20},
 		Plan: func(tier string) []core.Suite {
 			if tier == "thorough" {
-				return []core.Suite{{Name: "race", N: 600, CaseTimeout: 600}, {Name: "pause", N: 6000, CaseTimeout: 600}}
+				return []core.Suite{{Name: "race", N: 2000, CaseTimeout: 600}, {Name: "pause", N: 20000, CaseTimeout: 600}}
 			}
 			return []core.Suite{{Name: "race", N: 32, CaseTimeout: 600}, {Name: "pause", N: 360, CaseTimeout: 600}}
 		},
